@@ -581,6 +581,13 @@ class Spec:
         env = self.at(state, t)
         vals = {k: v for k, v in env.items() if k not in self.data}
         if fl[8]:
+            # readouts are resolved like everything else (dependency order, F-C01-3 repaired): a readout naming
+            # something that is neither in the argument table, nor a data set, nor a readout is a missing dependency
+            known = set(env) | set(self.readouts)
+            missing = sorted([k, sorted(set(f["args"]) - known)] for k, f in self.readouts.items()
+                             if set(f["args"]) - known)
+            if missing:
+                raise SpecMissing(missing)
             memo = {}
 
             def ro_val(k, stack=()):
@@ -589,14 +596,7 @@ class Spec:
                 if k in stack:
                     raise SpecCircular
                 f = self.readouts[k]
-                xs = []
-                for a in f["args"]:
-                    if a in self.readouts:
-                        xs.append(ro_val(a, stack + (k,)))
-                    elif a in env:
-                        xs.append(env[a])
-                    else:
-                        raise SpecKeyError(a)
+                xs = [ro_val(a, stack + (k,)) if a in self.readouts else env[a] for a in f["args"]]
                 memo[k] = feval(f["e"], xs)
                 return memo[k]
 
